@@ -87,6 +87,10 @@ func c01Total(w *run.W, fam string, pr impl.Project, dir string) {
 	}
 }
 
+// c01MaxStates caps the state list: if the scanner stops refusing byte 0 (the marker used to read a state) every prefix
+// becomes its own state; the family then covers the first c01MaxStates prefixes and reports the cap.
+const c01MaxStates = 12000
+
 var c01RepBytes = []byte("\x01\t\n\r !\"#()*/0159@ABDEGHIJMOPQRSTUVZ[\\]aez{|}~\x7f\x80\xc3\xff")
 
 type c01BytesParams struct {
@@ -113,7 +117,7 @@ func workC01Bytes(w *run.W) {
 		if s.depth < p.Depth {
 			for _, tok := range c12Tokens[:c12BaseTokens] {
 				k, dead := c12State(s.witness + tok)
-				if !dead && !seen[k] {
+				if !dead && !seen[k] && len(states) < c01MaxStates {
 					seen[k] = true
 					states = append(states, st{s.witness + tok, s.depth + 1})
 				}
@@ -152,7 +156,7 @@ func workC01Bytes(w *run.W) {
 		w.End()
 	}
 	if w.Shard == 0 {
-		w.Emit("c01bytes", map[string]any{"states": len(states)})
+		w.Emit("c01bytes", map[string]any{"states": len(states), "capped": len(states) >= c01MaxStates})
 	}
 }
 
@@ -307,6 +311,9 @@ func workC01Include(w *run.W) {
 		}
 	}
 	placements := []string{"root", "in-context", "extra-param", "annotation", "paren-after", "explicit-context"}
+	// what an included (non-root) file contains besides its own INCLUDE lines
+	bodies := []string{"TYPE @t%d any\n", "GET /q%d\n  Description\n    text\x00more\n", "### unclosed block comment %d\n", "GET /q%d\n  200\n  {\"a\": \n",
+		"\xff\xfe %d", "TYPE @t%d any\n(\n", ")\n# %d\n", "GET /q%d /*/\n", "ENUM @e%d\n[1] /*/\n"}
 	total := 1
 	for i := 0; i < p.Files; i++ {
 		total *= len(lists)
@@ -314,53 +321,62 @@ func workC01Include(w *run.W) {
 	var idx int64
 	for c := 0; c < total; c++ {
 		for pi, pl := range placements {
-			idx++
-			if !w.Mine(idx) || !w.Begin(fmt.Sprintf("inc/%d/%d/%s", p.Files, c, pl)) {
-				continue
-			}
-			pr := impl.Project{Files: map[string]string{"d/g.jst": "TYPE @g any\n"}, Root: "f0.jst", Dirs: []string{"d"}}
-			x := c
-			for f := 0; f < p.Files; f++ {
-				l := lists[x%len(lists)]
-				x /= len(lists)
-				var b strings.Builder
-				if f == 0 {
-					b.WriteString("JSIGHT 0.3\n")
+			for bi, body := range bodies {
+				if bi > 0 && pl != "root" && pl != "in-context" {
+					continue
 				}
-				fmt.Fprintf(&b, "TYPE @t%d any\n", f)
-				if len(l) > 0 {
-					switch pl {
-					case "in-context", "explicit-context":
-						fmt.Fprintf(&b, "GET /p%d\n", f)
-						if pl == "explicit-context" {
-							b.WriteString("(\n")
+				idx++
+				if !w.Mine(idx) || !w.Begin(fmt.Sprintf("inc/%d/%d/%s/%d", p.Files, c, pl, bi)) {
+					continue
+				}
+				pr := impl.Project{Files: map[string]string{"d/g.jst": "TYPE @g any\n"}, Root: "f0.jst", Dirs: []string{"d"}}
+				x := c
+				for f := 0; f < p.Files; f++ {
+					l := lists[x%len(lists)]
+					x /= len(lists)
+					var b strings.Builder
+					if f == 0 {
+						b.WriteString("JSIGHT 0.3\n")
+					}
+					if f == 0 {
+						fmt.Fprintf(&b, "TYPE @t%d any\n", f)
+					} else {
+						fmt.Fprintf(&b, body, f)
+					}
+					if len(l) > 0 {
+						switch pl {
+						case "in-context", "explicit-context":
+							fmt.Fprintf(&b, "GET /p%d\n", f)
+							if pl == "explicit-context" {
+								b.WriteString("(\n")
+							}
 						}
 					}
-				}
-				for _, t := range l {
-					switch pl {
-					case "extra-param":
-						fmt.Fprintf(&b, "INCLUDE %s extra\n", t)
-					case "annotation":
-						fmt.Fprintf(&b, "INCLUDE %s // note\n", t)
-					case "paren-after":
-						fmt.Fprintf(&b, "INCLUDE %s\n(\n)\n", t)
-					default:
-						fmt.Fprintf(&b, "INCLUDE %s\n", t)
+					for _, t := range l {
+						switch pl {
+						case "extra-param":
+							fmt.Fprintf(&b, "INCLUDE %s extra\n", t)
+						case "annotation":
+							fmt.Fprintf(&b, "INCLUDE %s // note\n", t)
+						case "paren-after":
+							fmt.Fprintf(&b, "INCLUDE %s\n(\n)\n", t)
+						default:
+							fmt.Fprintf(&b, "INCLUDE %s\n", t)
+						}
 					}
+					if len(l) > 0 && pl == "explicit-context" {
+						b.WriteString(")\n")
+					}
+					pr.Files[fmt.Sprintf("f%d.jst", f)] = b.String()
 				}
-				if len(l) > 0 && pl == "explicit-context" {
-					b.WriteString(")\n")
+				_ = pi
+				c01Total(w, "include-graphs", pr, dir)
+				w.Nontrivial(showProject(pr))
+				if idx == 500 {
+					w.Sample(map[string]any{"family": "include-graphs", "project": pr})
 				}
-				pr.Files[fmt.Sprintf("f%d.jst", f)] = b.String()
+				w.End()
 			}
-			_ = pi
-			c01Total(w, "include-graphs", pr, dir)
-			w.Nontrivial(showProject(pr))
-			if idx == 500 {
-				w.Sample(map[string]any{"family": "include-graphs", "project": pr})
-			}
-			w.End()
 		}
 	}
 }
@@ -424,6 +440,9 @@ func runC01(c *chk.Ctx) {
 			var m map[string]any
 			json.Unmarshal(e[0], &m)
 			fam["c01bytes_states"] = m["states"]
+			if capped, _ := m["capped"].(bool); capped {
+				c.Incomplete = append(c.Incomplete, fmt.Sprintf("byte family: state cap %d reached (the scanner's control state could not be read after most prefixes)", c01MaxStates))
+			}
 		}
 	}
 	c.Cov["families"] = fam
